@@ -8,7 +8,7 @@ Definition ws_b (w : ws) : bool := forallb is_ws_byte w.
 Definition iws_b (w : ws) : bool := forallb (fun b => (b =? 32) || (b =? 9)) w.
 Definition ident_b (s : bytes) : bool := ident_runes (S (length s)) s.
 Definition nonnil_b (s : bytes) : bool := negb (is_nil_b s).
-Definition str_b (s : bytes) : bool := no_byte 34 s && no_byte 10 s.
+Definition str_b (s : bytes) : bool := no_byte 34 s && no_byte 10 (tl s).
 Definition comment_b (t : bytes) : bool := no_byte 10 t && last_not 13 t.
 Definition name_b (n : bytes) : bool := ident_b n && nonnil_b n && negb (bytes_eqb n k_task).
 
